@@ -10,7 +10,6 @@ sys.path.insert(0, str(VERIF))
 
 NA = {
     "C18": "exception-freedom and bounded work over all seeds are run-time quantities; no sound static bound is in reach (probabilistically bounded recursion, emptiness of random.choice pools and None-dereferences need value reasoning) - see DESIGN.md section 5",
-    "C19": "exact input/output equality of seven graph algorithms on all graphs is a value-level property; no clause is a shape of the code that is also a necessary condition of the answers being right - see DESIGN.md section 5",
 }
 PENDING = "checker for this property is designed (DESIGN.md section 2) but not yet implemented in this commit; not claimed until it is"
 
@@ -42,7 +41,7 @@ def main():
                          "effect summaries, call resolution): structural necessary conditions of the property, "
                          "each an explicit obligation list evaluated on every run. " + mod.DECIDES +
                          " Not decided: " + mod.NOT_DECIDED),
-                "design_ref": "DESIGN.md section 2, " + pid,
+                "design_ref": getattr(mod, "DESIGN_REF", "DESIGN.md section 2, " + pid),
             },
             "level_note": ("Trusted base: CPython ast semantics; alias/MRO/name-based call resolution; the rule tables "
                            "frozen in hsa/props/%s.py (cross-checked against the source, instance floors, fail-closed "
